@@ -1338,6 +1338,8 @@ def orth_init_rule(ctx):
     if params[:2] != ["features", "num_transforms"]:
         raise AnalysisIncomplete("HouseholderSequence.__init__ signature changed")
     GRID = [(f, k) for f in range(1, 7) for k in range(1, 15)]
+    if getattr(ctx, "tier", "quick") == "thorough":
+        GRID = [(f, k) for f in range(1, 25) for k in range(1, 60)]
 
     def enclosing_conds(node):
         out = []
